@@ -595,7 +595,7 @@ func (db *DB) all(of Object) (out []Object, err error) {
 	var o Object
 	var it *iterator
 
-	if it, err = db.Iterator(of); err != nil {
+	if it, err = db.iterator(of); err != nil {
 		return
 	}
 
@@ -673,7 +673,7 @@ func (db *DB) searchAll(o Object, field, operator string, value interface{}, con
 			uuids = append(uuids, s.ObjectIndex.ObjectIds[c.ObjectId])
 		}
 		iter = newIterator(db, o, uuids)
-	} else if iter, err = db.Iterator(o); err != nil {
+	} else if iter, err = db.iterator(o); err != nil {
 		return &Search{db: db, err: err}
 	}
 
@@ -731,6 +731,12 @@ func (db *DB) Iterator(of Object) (it *iterator, err error) {
 	db.RLock()
 	defer db.RUnlock()
 
+	return db.iterator(of)
+}
+
+// iterator returns an Object Iterator. It must be called
+// by functions already holding the lock
+func (db *DB) iterator(of Object) (it *iterator, err error) {
 	var s *Schema
 	var uuids []string
 
